@@ -4,6 +4,7 @@
 //   node ::= ( ((id accept)..) ((pattern template)..) ((pattern node)..) pk pid )
 //   extra log entries: (30 (30 id)) middleware ran | (30 (31 id pathUtf8)) process() ran
 #include <QCoreApplication>
+#include <algorithm>
 #include <functional>
 #include <memory>
 #include <vector>
@@ -25,7 +26,12 @@ using namespace QHttpEngine;
 Val headersVal(const Socket::HeaderMap &h);
 
 namespace {
-struct Log { Val v = Val::List(); Val *cur = &v; };      // the instrumented objects write to *cur
+struct Log {
+    Val v = Val::List(); Val *cur = &v;      // the instrumented objects write to *cur
+    // family srvi: a middleware that is consulted lets other connections make progress before it decides (what a local event
+    // loop inside the middleware does): the hook performs pending operations of OTHER connections, nested in this call
+    std::function<void()> nested;
+};
 
 class InstrMiddleware : public Middleware
 {
@@ -35,6 +41,7 @@ public:
     bool process(Socket *socket) override
     {
         mLog->cur->add(Val::List({Val::Int(30), Val::List({Val::Int(30), Val::Int(mId)})}));
+        if (mLog->nested) { Val *mine = mLog->cur; mLog->nested(); mLog->cur = mine; }
         bool accept = mFlag == 0 ? false : (mFlag == 2 ? socket->headers().contains("X-Pass") : true);
         if (!accept) {
             // refusal style by id: a complete 403, nothing at all, or a fragment of its own with the connection left open
@@ -245,12 +252,31 @@ static Val run_srvi(const Val &c)
     std::vector<std::unique_ptr<ConnRunner>> rs;
     std::vector<size_t> cursor(n, 0);
     for (size_t i = 0; i < n; ++i) rs.emplace_back(new ConnRunner(server, &logs[i]));
+    std::vector<size_t> acting;          // connections whose operation is in progress, outermost first
     auto act = [&](size_t i) {
         if (cursor[i] >= inner.at(1).l[i].l.size()) return;
         log.cur = &logs[i];             // whatever the handler tree notes now belongs to the connection that is acting
+        acting.push_back(i);
         rs[i]->step(inner.at(1).l[i].l[cursor[i]++]);
+        acting.pop_back();
     };
-    for (auto &iv : c.at(0).l) { qint64 i = iv.asInt(); if (i < 0 || size_t(i) >= n) throw std::runtime_error("badcase"); act(size_t(i)); }
+    std::vector<size_t> sched;
+    for (auto &iv : c.at(0).l) { qint64 i = iv.asInt(); if (i < 0 || size_t(i) >= n) throw std::runtime_error("badcase"); sched.push_back(size_t(i)); }
+    size_t pos = 0;
+    // while a middleware is being consulted: the next scheduled operations go ahead, nested, as long as they belong to connections
+    // that are not in the middle of an operation themselves and deliver bytes (a request arriving while another is being judged)
+    log.nested = [&]() {
+        for (int k = 0; k < 2 && acting.size() < 4 && pos < sched.size(); ++k) {
+            size_t j = sched[pos];
+            if (std::find(acting.begin(), acting.end(), j) != acting.end()) return;
+            if (cursor[j] >= inner.at(1).l[j].l.size()) { ++pos; continue; }
+            if (inner.at(1).l[j].l[cursor[j]].at(0).asInt() != 0) return;
+            ++pos;
+            act(j);
+        }
+    };
+    while (pos < sched.size()) { size_t i = sched[pos++]; act(i); }
+    log.nested = nullptr;
     for (size_t i = 0; i < n; ++i) while (cursor[i] < inner.at(1).l[i].l.size()) act(i);
     for (auto &r : rs) r->finish();
     delete server;
